@@ -245,9 +245,10 @@ class Scenario:
             variant = variant or rng.choice(["5", "5", "5p", "4"])
             if variant == "4":
                 is_v4 = isinstance(host, str) and host.count(".") == 3 and all(x.isdigit() for x in host.split("."))
-                if isinstance(host, str) and ":" in host:
+                if isinstance(host, str) and ":" in host and rng.random() < 0.5:
                     variant = "5"
                 else:
+                    # (an IPv6 literal fits the SOCKS4a name field like any other text: the resolver reads it as the address)
                     req = rc.socks4_request(1, host, port, creds[0] if creds else b"u")
                     return [send(req + early), op("recv_n", n=8, label="reply")], "socks4" if is_v4 else "socks4a"
             cmd = 3 if udp else 1
